@@ -179,7 +179,7 @@ def run_lines(work, L):
     return obs
 
 
-def decide_sets(gk, gref, var, domain, zsets, expect, signed_free, rbits, exact=None):
+def decide_sets(gk, gref, var, domain, zsets, expect, signed_free, rbits, exact=None, okjudge=None):
     """lines.decide with zones given as ISets"""
     # adapt: lines.decide wants math intervals; wrap each ISet zone as its own pseudo-interval run
     verdict, details = "proved", []
@@ -189,7 +189,7 @@ def decide_sets(gk, gref, var, domain, zsets, expect, signed_free, rbits, exact=
             continue
         ivs = (Z & domain).signed_intervals() if signed_free else list((Z & domain).ivs)
         for (a, b) in ivs:
-            v, d = lines.decide(gk, gref, var, domain, {zname: (a, b)}, expect, signed_free, rbits, exact)
+            v, d = lines.decide(gk, gref, var, domain, {zname: (a, b)}, expect, signed_free, rbits, exact, okjudge)
             if order[v] > order[verdict]:
                 verdict = v
             details += d
